@@ -13,8 +13,9 @@
                          "Lazy function … used before definition")
    An event is a declaration (kind, path) or a call of a path, in source order; the index of an event is its
    position.  `fixed` selects the repaired (true) or the pinned (false) membership test.
-   Outside: the `_` idiom (a template NAMED `_` is deleted from lazy_func by its first call; `@if` on `_` is an
-   instant call that is never stored) — the harness checks it with a plain oracle; bodies; parameters. *)
+   Outside THIS model: the `_` idiom (a template whose last path segment is `_` is deleted from lazy_func by its
+   first call; `@if` on `_` is an instant call that is never stored) and bodies — both are in Model/DeclUse.v
+   (strengthening round 4: what a USE does to the tables, template bodies re-run at every use); parameters. *)
 From Coq Require Import String List Bool Arith.
 Import ListNotations.
 
